@@ -23,8 +23,9 @@ from vlib import replay as rp
 
 PROP = "C07"
 INVS = ["TypeOK", "ListsDisjoint", "BackpressureOnlyWhileWriting", "BpWellFormed", "PropertyHolds"]
-ALL_FINDINGS = ["F10a", "F10b", "F10c"]
-MODEL_FIXABLE = ["F10a", "F10b"]          # findings whose repaired behaviour M can model (CONSTANT Fixed)
+ALL_FINDINGS = ["F10a", "F10b", "F10c", "F10d"]
+MODEL_FIXABLE = ["F10a", "F10b", "F10d"]
+N_BAD_BODIES = 7                          # harness BAD_BODIES: the pool the abstract malformed frame is drawn from          # findings whose repaired behaviour M can model (CONSTANT Fixed)
 
 LANES = {  # MC_DownlinkRuntime operator -> harness cfg "init"
     "LaneV": "i0", "LaneM0": {}, "LaneM1": {"k1": "i1"}, "LaneM2": {"k1": "i1", "k2": "i2"},
@@ -50,20 +51,23 @@ def cfgtext(consts, invariants=(), view=None, action_constraints=()):
     return "\n".join(lines) + "\n"
 
 
-def fixed_op(fixed):
-    f = sorted(fixed)
-    return {(): "<- NoFindings", ("F10a",): "<- FixedA", ("F10b",): "<- FixedB", ("F10a", "F10b"): "<- FixedAB"}[tuple(f)]
+def strset(xs):
+    return core.Raw("{" + ", ".join('"%s"' % x for x in sorted(xs)) + "}")
 
 
 def consts(kind, fixed, **kw):
     c = dict(Kind=kind, Consumers=core.Raw("{1, 2}"), SockCap=1, MaxCmd=2, MaxSet=1,
-             KeySeq="<- Keys2" if kind == "map" else "<- Keys1",
-             InitLane="<- LaneM1" if kind == "map" else "<- LaneV",
+             KeySeq="<- Keys2" if kind != "value" else "<- Keys1",
+             InitLane="<- LaneM1" if kind != "value" else "<- LaneV",
              OptSet="<- OptNoKeep", AllowEmpty=False, AllowHold=False, AllowStop=False,
-             Settled=True, MaxSteps=4, Fixed=fixed_op(fixed), Enabled="<- AllFindings")
+             Strategies=strset(["abort"]), MaxBad=0, AllowBadCmd=False, AllowTakeDrop=False,
+             Settled=True, MaxSteps=4, Fixed=strset(fixed), Enabled=strset(ALL_FINDINGS))
     for k, v in kw.items():
         c[k] = v
     return c
+
+
+BOTH = strset(["abort", "ignore"])
 
 
 # ----------------------------------------------------------------------------- scripts <-> cases
@@ -71,10 +75,21 @@ def consts(kind, fixed, **kw):
 INPUT = {"k", "c", "sync", "keep", "op", "hold", "settle"}
 
 
-def to_case(cid, c, replay):
+def concretise(x, b):
+    """the abstract malformed body of the specification -> one of the harness's pool"""
+    if isinstance(x, dict):
+        if x.get("o") == "bad":
+            return dict(x, b=b)
+        return {k: concretise(v, b) for k, v in x.items()}
+    if isinstance(x, list):
+        return [concretise(v, b) for v in x]
+    return x
+
+
+def to_case(cid, c, replay, nth=0):
     """A finished script printed by TLC (hist) -> harness case with the outputs M expects."""
     acts = []
-    h = replay["acts"]
+    h = concretise(replay["acts"], nth % N_BAD_BODIES)
     for i, a in enumerate(h):
         act = {k: v for k, v in a.items() if k in INPUT}
         act["settle"] = bool(h[i + 1]["pre"]) if i + 1 < len(h) else True
@@ -90,7 +105,8 @@ def to_case(cid, c, replay):
         act["exp"] = exp
         acts.append(act)
     lane = c["InitLane"][3:]
-    return {"id": cid, "cfg": {"kind": c["Kind"], "cap": c["SockCap"], "init": LANES[lane]},
+    return {"id": cid, "cfg": {"kind": c["Kind"], "cap": c["SockCap"], "init": LANES[lane],
+                               "strategy": replay.get("strategy", "abort")},
             "acts": acts, "m_verdict": {"ok": replay.get("ok"), "kf": replay.get("kf"), "why": replay.get("why")}}
 
 
@@ -227,6 +243,9 @@ def probes():
         {"id": "probe-F10c", "cfg": {"kind": "map", "cap": 2, "init": {"k1": "i1", "k2": "i2"}}, "acts": [
             a("attach", c=1, sync=True, keep=False), a("rread"), a("rread", hold=True), a("rpush"),
             a("attach", c=2, sync=True, keep=False), a("rpush"), a("rpush"), a("finish")]},
+        {"id": "probe-F10d", "cfg": {"kind": "map", "cap": 1, "init": {"k1": "i1"}, "strategy": "ignore"}, "acts": [
+            a("attach", c=1, sync=True, keep=False), a("rread"), a("rread"), a("rbad", op={"o": "bad", "b": 0}),
+            a("rset", op={"o": "upd", "k": "k2", "v": "r1"}), a("finish")]},
     ]
 
 
@@ -255,19 +274,24 @@ def b3_configs(tier, fixed):
         return [
             ("value bursts", consts("value", fixed, Settled=False, AllowEmpty=True, AllowStop=True, MaxCmd=1, MaxSet=1,
                                      MaxSteps=4, SockCap=1)),
-            ("map bursts hold", consts("map", fixed, Settled=False, AllowHold=True, MaxCmd=2, MaxSet=1, MaxSteps=3, SockCap=1)),
-            ("map settled hold", consts("map", fixed, Settled=True, AllowHold=True, AllowStop=True, MaxCmd=2, MaxSet=1, MaxSteps=4,
-                                         SockCap=1, KeySeq="<- Keys1")),
+            ("map bursts hold bad-frames", consts("map", fixed, Settled=False, AllowHold=True, MaxCmd=2, MaxSet=1, MaxSteps=3, SockCap=1,
+                                                   Strategies=BOTH, MaxBad=1, AllowBadCmd=True, AllowTakeDrop=True)),
+            ("map settled hold bad-frames", consts("map", fixed, Settled=True, AllowHold=True, AllowStop=True, MaxCmd=1, MaxSet=1,
+                                                    MaxSteps=4, SockCap=1, KeySeq="<- Keys1", Strategies=BOTH, MaxBad=1)),
         ]
     return [
         ("value bursts", consts("value", fixed, Settled=False, AllowEmpty=True, AllowStop=True, MaxCmd=2, MaxSet=1,
                                  MaxSteps=5, SockCap=1)),
         ("map bursts hold", consts("map", fixed, Settled=False, AllowHold=True, MaxCmd=2, MaxSet=1, MaxSteps=4, SockCap=1,
                                     InitLane="<- LaneM2")),
+        ("map bursts bad-frames", consts("map", fixed, Settled=False, AllowHold=True, MaxCmd=1, MaxSet=1, MaxSteps=4, SockCap=1,
+                                          KeySeq="<- Keys1", Strategies=BOTH, MaxBad=2, AllowBadCmd=True, AllowTakeDrop=True)),
+        ("mapevent bursts", consts("mapevent", fixed, Settled=False, AllowHold=True, MaxCmd=1, MaxSet=1, MaxSteps=4, SockCap=1,
+                                    KeySeq="<- Keys1", MaxBad=1, AllowTakeDrop=True)),
         ("value cap0 settled", consts("value", fixed, Settled=True, AllowEmpty=True, AllowStop=True, MaxCmd=3, MaxSet=1,
                                        MaxSteps=5, SockCap=0)),
-        ("map settled hold", consts("map", fixed, Settled=True, AllowHold=True, AllowStop=True, MaxCmd=2, MaxSet=1, MaxSteps=5,
-                                     SockCap=1, KeySeq="<- Keys1")),
+        ("map settled hold bad-frames", consts("map", fixed, Settled=True, AllowHold=True, AllowStop=True, MaxCmd=2, MaxSet=1, MaxSteps=5,
+                                                SockCap=1, KeySeq="<- Keys1", Strategies=BOTH, MaxBad=1)),
     ]
 
 
@@ -281,23 +305,30 @@ def gen_configs(tier, fixed):
                            MaxSteps=3 if (q or cap == 2) else 4), "bfs", 0))
     out.append(("map cap1 exhaustive", consts("map", fixed, SockCap=1, AllowHold=True, MaxCmd=2, MaxSet=1, KeySeq="<- Keys1",
                                                MaxSteps=3 if q else 4, InitLane="<- LaneM1"), "bfs", 0))
+    # a malformed frame at every position of a session (before linked, inside the sync, after synced), both strategies
+    out.append(("map bad-frame placement exhaustive",
+                consts("map", fixed, SockCap=1, AllowHold=True, MaxCmd=0, MaxSet=1, KeySeq="<- Keys1", Strategies=BOTH, MaxBad=1,
+                       MaxSteps=4 if q else 5, InitLane="<- LaneM1", OptSet="<- OptSyncOnly" if q else "<- OptNoKeep"), "bfs", 0))
     n = 300 if q else 1000
+    bad = dict(Strategies=BOTH, MaxBad=2, AllowBadCmd=True, AllowTakeDrop=True)
     out.append(("value deep sim", consts("value", fixed, SockCap=1, AllowEmpty=True, AllowStop=True, AllowHold=True, OptSet="<- OptAll",
                                           MaxCmd=3, MaxSet=3, MaxSteps=14), "sim", n))
     out.append(("value cap0 deep sim", consts("value", fixed, SockCap=0, AllowEmpty=True, MaxCmd=4, MaxSet=2, MaxSteps=14), "sim", n))
     out.append(("map deep sim", consts("map", fixed, SockCap=1, AllowHold=True, AllowStop=True, MaxCmd=4, MaxSet=2, MaxSteps=16,
-                                        InitLane="<- LaneM2"), "sim", n))
+                                        InitLane="<- LaneM2", **bad), "sim", n))
     out.append(("map cap0 deep sim", consts("map", fixed, SockCap=0, AllowHold=True, MaxCmd=4, MaxSet=2, MaxSteps=16,
-                                             InitLane="<- LaneM1"), "sim", n))
+                                             InitLane="<- LaneM1", **bad), "sim", n))
+    out.append(("mapevent sim", consts("mapevent", fixed, SockCap=1, AllowHold=True, AllowStop=True, MaxCmd=3, MaxSet=2, MaxSteps=14,
+                                        InitLane="<- LaneM2", MaxBad=2, AllowBadCmd=True, AllowTakeDrop=True), "sim", n // 2))
     out.append(("value bursts sim", consts("value", fixed, Settled=False, SockCap=1, AllowEmpty=True, AllowStop=True, MaxCmd=3, MaxSet=2,
                                             MaxSteps=12), "sim", n))
     out.append(("map bursts sim", consts("map", fixed, Settled=False, SockCap=1, AllowHold=True, MaxCmd=3, MaxSet=2, MaxSteps=12,
-                                          InitLane="<- LaneM2"), "sim", n))
+                                          InitLane="<- LaneM2", **bad), "sim", n))
     m = 150 if q else 1000
     out.append(("value 3 consumers sim", consts("value", fixed, Consumers=core.Raw("{1, 2, 3}"), SockCap=2, AllowEmpty=True,
                                                  AllowStop=True, OptSet="<- OptAll", MaxCmd=2, MaxSet=3, MaxSteps=16), "sim", m))
     out.append(("map 3 consumers sim", consts("map", fixed, Consumers=core.Raw("{1, 2, 3}"), SockCap=2, AllowHold=True,
-                                               AllowStop=True, MaxCmd=2, MaxSet=2, MaxSteps=16, InitLane="<- LaneM2"), "sim", m))
+                                               AllowStop=True, MaxCmd=2, MaxSet=2, MaxSteps=16, InitLane="<- LaneM2", **bad), "sim", m))
     return out
 
 
@@ -307,10 +338,10 @@ def merge_cov(total, r):
         total[a] = (o[0] + d, o[1] + t)
 
 
-ACTIONS = ["A_Fwd", "A_Stop", "R_NewConsumer", "R_Linked", "R_Synced", "R_Event", "R_Unlinked", "R_Stop",
+ACTIONS = ["A_Fwd", "A_Stop", "R_NewConsumer", "R_Linked", "R_Synced", "R_Event", "R_BadIgnore", "R_BadAbort", "R_Unlinked", "R_Stop",
            "W_LinkDone", "W_IdleEmpty_Reg", "W_Idle_Block", "W_Idle_Reg", "W_Idle_Rec", "W_Idle_Gone",
            "W_Wr_Done", "W_Wr_Rec", "W_Wr_Gone", "W_Wr_Reg", "W_Stop",
-           "Attach", "CSend", "CDrop", "RRead", "RPush", "RSet", "RUnlink", "Stop", "Finish"]
+           "Attach", "AttachLate", "CSend", "CDrop", "RRead", "RPush", "RSet", "RBad", "RUnlink", "Stop", "Finish"]
 
 
 def run(tier, out):
@@ -364,11 +395,11 @@ def run(tier, out):
         reps = r.tagged.get("REPLAY", [])
         seen, cases = set(), []
         for rep in reps:
-            key = core.canon([{k: v for k, v in a.items() if k in INPUT or k == "pre"} for a in rep["acts"]])
+            key = core.canon([rep.get("strategy")] + [{k: v for k, v in a.items() if k in INPUT or k == "pre"} for a in rep["acts"]])
             if key in seen:
                 continue
             seen.add(key)
-            cases.append(to_case("g%d.%d" % (gi, len(cases)), c, rep))
+            cases.append(to_case("g%d.%d" % (gi, len(cases)), c, rep, len(cases)))
         if mode == "bfs":
             states += r.distinct
             transitions += r.generated
